@@ -454,6 +454,7 @@ type LoopSpec struct {
 type CallAssert struct {
 	Pattern string
 	When    string // "before" | "after"
+	InScope bool   // "inscope": applies only at the call sites where all its identifiers are in scope
 	Clause  Clause
 }
 
@@ -791,7 +792,7 @@ func (cs *Contracts) parseContractFile(path string, pkg string) error {
 				return fail(fmt.Errorf("bad loop clause kind %q", fs[2]))
 			}
 		case "at":
-			// at call <pattern> assert <label>: expr   |  at call <pattern> after assert ...
+			// at call <pattern> [after] [inscope] assert <label>: expr
 			if len(fs) < 5 || fs[1] != "call" {
 				return fail(fmt.Errorf("bad at clause"))
 			}
@@ -811,7 +812,8 @@ func (cs *Contracts) parseContractFile(path string, pkg string) error {
 			if c.Label == "" {
 				c.Label = fmt.Sprintf("a%d", len(cur.CallAsserts))
 			}
-			cur.CallAsserts = append(cur.CallAsserts, CallAssert{Pattern: pat, When: when, Clause: c})
+			inScope := strings.Contains(rest[:k]+" ", " inscope ")
+			cur.CallAsserts = append(cur.CallAsserts, CallAssert{Pattern: pat, When: when, InScope: inScope, Clause: c})
 		case "const_global":
 			c, err := labelled(rest)
 			if err != nil {
